@@ -963,7 +963,9 @@ fn value_row(v: &Value, spec: &J, with_text: bool) -> J {
                 }
                 again.push(a);
                 if unstable || with_text {
-                    o["norm_cv"] = to_cv(w);
+                    if f2.depth <= 24 {
+                        o["norm_cv"] = to_cv(w);
+                    }
                     o["norm"] = json!(wc);
                 }
             }
@@ -987,10 +989,12 @@ fn value_row(v: &Value, spec: &J, with_text: bool) -> J {
             row["ref"] = json!(rt);
         }
     }
-    let any_bad = row["pr"].as_array().unwrap().iter().any(|o| o["back"] != row["vid"] || o.get("norm_cv").is_some());
+    let any_bad = row["pr"].as_array().unwrap().iter().any(|o| o["back"] != row["vid"] || o.get("norm").is_some());
     if with_text || any_bad {
         row["canon"] = json!(cs);
-        row["cv"] = to_cv(v);
+        if f.depth <= 24 {
+            row["cv"] = to_cv(v);
+        }
     }
     if !spec.is_null() {
         // chunk independence on the compact text (what the wire carries) and on the pretty text (new lines)
@@ -1761,7 +1765,7 @@ fn run_case(case: &J) -> J {
         "value" => {
             let mut c = Concretiser { salt, counter: 0 };
             let v = c.value(&case["v"]);
-            guarded(json!({"k": "value", "cv": to_cv(&v)}), || value_row(&v, spec, wt))
+            guarded(json!({"k": "value", "canon": canon_s(&v)}), || value_row(&v, spec, wt))
         }
         "cval" => {
             let v = from_cv(&case["cv"]);
